@@ -12,6 +12,13 @@ args = [a for a in sys.argv[1:] if not a.startswith("--")]
 inplace = "--inplace" in sys.argv
 nobase = "--nobaseline" in sys.argv
 d, pids = os.path.abspath(args[0]), args[1:]
+# the checks run in a private copy of the framework (Gen files, build output, evidence and replays are per copy), so several
+# seeded runs can go on at once and /verif can be edited meanwhile; --shared runs them in /verif itself
+shared = "--shared" in sys.argv
+VROOT = ROOT
+if not shared:
+    VROOT = tempfile.mkdtemp(prefix="seed_vf_", dir="/tmp")
+    subprocess.run(f"rsync -a --exclude .git --exclude replays {ROOT}/ {VROOT}/", shell=True, check=True)
 patch = os.path.join(d, "patch.diff")
 demo = os.path.join(d, "demo.py")
 so = "/repo/wavespectra/partition/specpart.cpython-312-x86_64-linux-gnu.so"
@@ -42,7 +49,7 @@ try:
     for pid in pids:
         env = dict(os.environ, VERIF_REPO=wt, VERIF_NPROC=os.environ.get("VERIF_NPROC", "8"))
         tier = os.environ.get("VERIF_TIER", "quick")
-        c = subprocess.run(f"cd {ROOT} && ./check {pid} --tier {tier}", shell=True, capture_output=True, text=True, env=env)
+        c = subprocess.run(f"cd {VROOT} && ./check {pid} --tier {tier}", shell=True, capture_output=True, text=True, env=env)
         viol = [l for l in c.stdout.splitlines() if l.startswith("VIOLATION")]
         summ = [l for l in c.stderr.splitlines() if l.startswith(f"[{pid}]")]
         res["checks"][pid] = dict(rc=c.returncode, violation=viol[:1], summary=summ[-1:] )
@@ -51,6 +58,9 @@ finally:
         sh("git -C /repo checkout -- .")
     else:
         sh(f"git -C /repo worktree remove --force {wt}")
-    # evidence files were rewritten by the mutant run: restore the committed ones
-    sh(f"cd {ROOT} && git checkout -- evidence 2>/dev/null")
+    if shared:
+        # evidence files were rewritten by the mutant run: restore the committed ones
+        sh(f"cd {ROOT} && git checkout -- evidence 2>/dev/null")
+    else:
+        shutil.rmtree(VROOT, ignore_errors=True)
 print(json.dumps(res, indent=1))
